@@ -10,6 +10,32 @@ import traceback
 from . import common
 
 
+def generic_replay(mod, prop: str, tier: str, path: str) -> int:
+    """Re-run the check with the seed recorded in the replay file and report whether the recorded failure recurs.
+
+    Replay files are written by `Check.finish`; their name ends in `-<seed>.json`. All generators are seeded, so the
+    same seed regenerates the same cases against the current /repo tree.
+    """
+    import json
+    import re
+    from pathlib import Path
+    rec = json.loads(Path(path).read_text())
+    m = re.search(r"-(\d+)\.json$", path)
+    seed = int(m.group(1)) if m else 0
+    keys = sorted({v.get("key", "") for v in rec.get("violations", [])}) or rec.get("no_longer_checks", [])
+    print(f"[{prop}] replaying {path}: kind={rec.get('kind')} seed={seed} recorded={keys}")
+    for v in rec.get("violations", [])[:3]:
+        print(f"  recorded: {v.get('key')}: {v.get('what')}\n    case: {json.dumps(v.get('case'), default=str)[:600]}")
+    ck = common.Check(prop, tier, seed)
+    mod.check(ck)
+    now = sorted({v.get("key", "") for v in ck.spec_violations})
+    print(f"[{prop}] on the current tree: violations={now} proof_failures={len(ck.proof_failures)} "
+          f"correspondence_mismatches={len(ck.corr_mismatch)}")
+    again = bool(set(now) & set(keys)) or (rec.get("kind") == "unproved" and bool(ck.proof_failures or ck.corr_mismatch))
+    print(f"[{prop}] recorded failure {'REPRODUCED' if again else 'not reproduced'}")
+    return 1 if again else 0
+
+
 def main() -> int:
     ap = argparse.ArgumentParser()
     ap.add_argument("prop")
@@ -23,7 +49,9 @@ def main() -> int:
     for k, v in getattr(mod, "ENV", {}).items():
         os.environ[k] = v
     if a.replay:
-        return mod.replay(a.replay)
+        if hasattr(mod, "replay"):
+            return mod.replay(a.replay)
+        return generic_replay(mod, prop, a.tier, a.replay)
     ck = common.Check(prop, a.tier, seed)
     try:
         mod.check(ck)
